@@ -23,5 +23,5 @@ Proportional == \A r \in Rules : Damage(c, r, [i \in 1..Len(coll) |-> <<coll[i][
 OrderIndependent == \A r \in Rules : Damage(c, r, [i \in 1..Len(coll) |-> coll[Len(coll) + 1 - i]]) = Damage(c, r, coll)
 RuleOrder == out.d_orig <= out.d_haib /\ out.d_haib <= out.d_elem
 GassnerElementaryIsOne == out.gassner_elem = 0
-GassnerHaibachIsOne == MaxOcc(coll) >= c.a => out.gassner_haib = 0
+GassnerHaibachIsOne == (ReferenceOnK1Line \/ MaxOcc(coll) >= c.a) => out.gassner_haib = 0
 =============================================================================
